@@ -6,6 +6,10 @@ what = sys.argv[1]
 seen = []
 for p in sorted(glob.glob(os.path.join(root, "checks", "C*.json"))):
     spec = json.load(open(p))
+    if what == "modules":
+        for m in (spec.get("props_modules") or [spec["props_module"]]):
+            if m not in seen:
+                seen.append(m)
     for h in spec.get("harness", []):
         if what == "drivers" and h.get("driver"):
             item = h["driver"]
